@@ -28,7 +28,7 @@ const prop = "C12"
 
 func TestMain(m *testing.M) {
 	vkit.Rec(prop).SetLevel("exploration",
-		"(1) direct Store/Load of all four record types with EVERY combination of optional fields (nonce, previous key, state, bundles, option-supplied state) under wrapper A, loaded with A / B / none; (2) every library flow that writes records (root rotation fresh/promote/reinitialise/with state, authorize, three fetch modes, token creation, node-side create/handle, node credential rotation, enrolment and authentication over the wire with protocol.Dial) run on a recording storage with a wrapper; (3) transplants of every sealed field between two records of the same type. Oracle: no secret of the case (fresh random key material, unique timestamp) occurs as a substring of any byte string handed to Storage.Store; same wrapper => proto.Equal round trip; other/no wrapper => error; transplant => error. Non-trivial = record with >=1 optional sensitive field, flow-produced writes, transplants; distinct = (record type, field combination, wrapper variant) / flow / transplanted field.")
+		"(1) direct Store/Load of all four record types with EVERY combination of optional fields (nonce, previous key, state, bundles, option-supplied state) under wrapper A, loaded with A / B / none; (2) every library flow that writes records (root rotation fresh/promote/reinitialise/with state, authorize, three fetch modes, token creation, node-side create/handle, node credential rotation, enrolment and authentication over the wire with protocol.Dial) run on a recording storage with a wrapper; (3) transplants of every sealed field between two records of the same type. Oracle: no secret of the case (fresh random key material, unique timestamp) occurs as a substring of any byte string handed to Storage.Store; same wrapper => proto.Equal round trip; other/no wrapper => error; transplant => error; the records of one node ID loaded as a set (1-4 records sealed with none / A / B, loaded with none / A / B, now and then a transplanted sealed key) load iff every record opens on its own and then equal the single loads. Non-trivial = record with >=1 optional sensitive field, flow-produced writes, transplants; distinct = (record type, field combination, wrapper variant) / flow / transplanted field.")
 	vkit.Main(m)
 }
 
